@@ -11,6 +11,11 @@ CHECKS = {
          "model-based property testing (proptest-driven byte generator, reference ordered map, shrinking to replay file)",
          "DESIGN.md 4/C06",
          "Trusts cosmwasm-std MockStorage as bottom layer, serde/proptest, and that the verif feature only re-exports the private types."),
+ "C07": ("prefix", "exploration",
+         "Model-based testing of prefixed/multilevel views (read-only and mutable, through App's public accessors) against the window of a reference map of raw keys under an independently written length-prefix encoding; adversarial namespaces (empty path, 0xFF tails, 65535-byte all-FF segment, segments spelling other prefixes) and raw keys placed just below/above each window; sub-window/disjointness relation between two related paths. 'No disagreement on N generated cases'.",
+         "model-based property testing (proptest-driven byte generator, reference raw-key map + reference encoding, shrinking to replay file)",
+         "DESIGN.md 4/C07",
+         "Trusts MockStorage as base store; segments > 65535 bytes excluded (documented panic)."),
 }
 
 NOT_YET = "check not built yet in this revision of /verif (work in progress; planned, see DESIGN.md section 4)"
